@@ -344,3 +344,105 @@ func SortedKeys[M ~map[string]V, V any](m M) []string {
 	sort.Strings(ks)
 	return ks
 }
+
+// ---- building through index.Builder (skip decisions, several shards) ----
+
+type BuilderConfig struct {
+	ShardMax, SizeMax, TrigramMax, Parallelism int
+	LargeFiles                                 []string `json:",omitempty"`
+}
+
+// ModelSkip is the documented skip decision of the indexer: too large, too
+// small (1-2 bytes), binary (a NUL byte), too many distinct trigrams.
+func ModelSkip(content []byte, sizeMax, trigramMax int, allowLarge bool) int {
+	if len(content) > sizeMax && !allowLarge {
+		return int(index.SkipReasonTooLarge)
+	}
+	if len(content) == 0 {
+		return 0
+	}
+	if len(content) < 3 {
+		return int(index.SkipReasonTooSmall)
+	}
+	if bytes.IndexByte(content, 0) >= 0 {
+		return int(index.SkipReasonBinary)
+	}
+	if allowLarge {
+		return 0
+	}
+	seen := map[[3]rune]struct{}{}
+	var rs []rune
+	for b := content; len(b) > 0; {
+		r, sz := utf8.DecodeRune(b)
+		b = b[sz:]
+		rs = append(rs, r)
+	}
+	for i := 0; i+3 <= len(rs); i++ {
+		seen[[3]rune{rs[i], rs[i+1], rs[i+2]}] = struct{}{}
+	}
+	if len(seen) > trigramMax {
+		return int(index.SkipReasonTooManyTrigrams)
+	}
+	return 0
+}
+
+// BuildWithBuilder indexes the repository into dir through index.Builder, the
+// way the indexing commands do. order (optional) permutes the insertion order.
+func BuildWithBuilder(r *Repo, dir string, cfg BuilderConfig, order []int) error {
+	opts := index.Options{
+		IndexDir:              dir,
+		RepositoryDescription: *r.ZoektRepo(),
+		ShardMax:              cfg.ShardMax,
+		SizeMax:               cfg.SizeMax,
+		TrigramMax:            cfg.TrigramMax,
+		Parallelism:           cfg.Parallelism,
+		LargeFiles:            cfg.LargeFiles,
+		DisableCTags:          true,
+	}
+	if len(r.SubRepos) > 0 {
+		opts.SubRepositories = opts.RepositoryDescription.SubRepoMap
+	}
+	opts.SetDefaults()
+	b, err := index.NewBuilder(opts)
+	if err != nil {
+		return err
+	}
+	if order == nil {
+		for i := range r.Docs {
+			order = append(order, i)
+		}
+	}
+	for _, i := range order {
+		if err := b.Add(r.Docs[i].ZoektDoc()); err != nil {
+			b.Finish()
+			return fmt.Errorf("add %q: %w", r.Docs[i].Name, err)
+		}
+	}
+	return b.Finish()
+}
+
+// OpenDir opens every *.zoekt file of dir with index.NewSearcher.
+func OpenDir(dir string) (*Built, error) {
+	paths, err := filepath.Glob(filepath.Join(dir, "*.zoekt"))
+	if err != nil {
+		return nil, err
+	}
+	sort.Strings(paths)
+	out := &Built{Dir: dir, Paths: paths}
+	for _, p := range paths {
+		f, err := os.Open(p)
+		if err != nil {
+			return nil, err
+		}
+		inf, err := index.NewIndexFile(f)
+		if err != nil {
+			return nil, err
+		}
+		s, err := index.NewSearcher(inf)
+		if err != nil {
+			return nil, fmt.Errorf("%s: %w", p, err)
+		}
+		out.Shards = append(out.Shards, s)
+	}
+	return out, nil
+}
